@@ -72,37 +72,30 @@ end
 
 /-! ### Renaming a root binder (what `_alpha_convert` does) -/
 
+def renName (x y n : Name) : Name := if n = x then y else n
+
 /-- `substitute(body, {old: Variable(new, dom)})` as a term: its specification is the `Subs` node. -/
 def renBody (old new : Name) (dom : Dom) (body : Term) : Term :=
   Term.subs body [(old, Term.var new dom)]
 
 def renVars (old new : Name) (vars : List (Name × Dom)) : List (Name × Dom) :=
-  vars.map fun (n, d) => (if n = old then new else n, d)
-
-def domOf (old : Name) (vars : List (Name × Dom)) : Dom :=
-  ((vars.find? (·.1 = old)).map (·.2)).getD ⟨DType.bint 1, []⟩
+  vars.map fun (nd : Name × Dom) => (renName old new nd.1, nd.2)
 
 /-- Rename the root binder `old` to `new`, following the class's `_alpha_convert`
-    (terms.py: Reduce 1137, Subs 944, Cat 1696, Lambda 1785, Independent 1861; cnf.py 216).
-    `size` is the size of the renamed bounded-integer variable (ignored where the node carries it). -/
-def renameRoot (old new : Name) : Term → Term
-  | Term.reduce op a vars =>
-    Term.reduce op (renBody old new (domOf old vars) a) (renVars old new vars)
-  | Term.lambda n size b =>
-    if n = old then Term.lambda new size (renBody old new ⟨DType.bint size, []⟩ b) else Term.lambda n size b
-  | Term.cat n pn sizes ps =>
-    if pn = old then
-      -- each part is renamed with its own size of `part_name`
-      Term.cat n new sizes ((ps.zip sizes).map fun (p, s) => renBody old new ⟨DType.bint s, []⟩ p)
-    else Term.cat n pn sizes ps
+    (terms.py: Reduce 1137, Subs 944, Cat 1696, Lambda 1785, Independent 1861; cnf.py 216):
+    the body is substituted `old ↦ Variable(new, dom)` and the binder field is renamed.
+    `dom` is the domain of the renamed variable (a type annotation only; `denote` ignores it). -/
+def renameRoot (old new : Name) (dom : Dom) : Term → Term
+  | Term.reduce op a vars => Term.reduce op (renBody old new dom a) (renVars old new vars)
+  | Term.lambda n size b => Term.lambda (renName old new n) size (renBody old new dom b)
+  | Term.cat n pn sizes ps => Term.cat n (renName old new pn) sizes (ps.map (renBody old new dom))
   | Term.contraction r b vars ts =>
-    Term.contraction r b (renVars old new vars) (ts.map (renBody old new (domOf old vars)))
+    Term.contraction r b (renVars old new vars) (ts.map (renBody old new dom))
   | Term.subs a σ =>
     -- only the argument is renamed; the values live outside the binder's scope
-    Term.subs (renBody old new ⟨DType.bint 1, []⟩ a) (σ.map fun (k, v) => (if k = old then new else k, v))
+    Term.subs (renBody old new dom a) (σ.map fun (kv : Name × Term) => (renName old new kv.1, kv.2))
   | Term.independent fn rv bv dv size =>
-    if bv = old then Term.independent (renBody old new ⟨DType.bint size, []⟩ fn) rv new dv size
-    else Term.independent fn rv bv dv size
+    Term.independent (renBody old new dom fn) rv (renName old new bv) (renName old new dv) size
   | t => t
 
 /-! ### One step of `substitute` through a binder node
@@ -141,8 +134,6 @@ def stampOf (n : Name) : Option Nat :=
   (String.ofList ((n.toList.reverse.takeWhile (· != '_')).reverse)).toNat?
 
 /-! ### Syntactic renaming of a free name -/
-
-def renName (x y n : Name) : Name := if n = x then y else n
 
 mutual
   /-- Rename the free occurrences of `x` to `y`.  Like `substitute`, it does not look inside a
@@ -183,20 +174,11 @@ end
 
 /-! ### `_alpha_mangle` and `reflect`
 
-State: the gensym counter.  `alphaMangle` renames exactly the root binders lacking the marker, one
-`gensym` per distinct bound *name* (a dict comprehension over `expr.bound`), in the body only. -/
-
-/-- Rename root binder `old ↦ new` syntactically (the effect of `_alpha_convert` on reflected syntax). -/
-def renameBinder (old new : Name) : Term → Term
-  | Term.reduce op a vars => Term.reduce op (rename old new a) (renVars old new vars)
-  | Term.lambda n size b => if n = old then Term.lambda new size (rename old new b) else Term.lambda n size b
-  | Term.cat n pn sizes ps =>
-    if pn = old then Term.cat n new sizes (renameList old new ps) else Term.cat n pn sizes ps
-  | Term.contraction r b vars ts => Term.contraction r b (renVars old new vars) (renameList old new ts)
-  | Term.subs a σ => Term.subs (rename old new a) (σ.map fun (k, v) => (renName old new k, v))
-  | Term.independent fn rv bv dv size =>
-    Term.independent (rename old new fn) rv (renName old new bv) (renName old new dv) size
-  | t => t
+`_alpha_mangle` (terms.py:105-120) computes ONE dictionary `alpha_subs = {name: gensym(name + "__BOUND")
+for name in expr.bound if "__BOUND" not in name}` and applies it to the children (`_alpha_convert`:
+`substitute(child, alpha_subs)`) and to the binder fields.  `reflect` (terms.py:123-158) consults the cons
+cache first, so a node that is structurally equal to an earlier one is NOT rebuilt: it shares the earlier
+node's mangled binder names (the FIXME "does not avoid conflict with other bound variables"). -/
 
 def dedup : List Name → List Name
   | [] => []
@@ -205,14 +187,214 @@ def dedup : List Name → List Name
 /-- The binders `_alpha_mangle` renames: those lacking the marker (each name once). -/
 def toMangle (t : Term) : List Name := dedup ((bound t).filter (fun n => !hasMarker n))
 
-/-- `_alpha_mangle`: returns the renamed node and the new counter. -/
-def alphaMangle (t : Term) (counter : Nat) : Term × Nat :=
-  (toMangle t).foldl (fun (acc : Term × Nat) old =>
-    (renameBinder old (mangledName old (acc.2 + 1)) acc.1, acc.2 + 1)) (t, counter)
+/-- `alpha_subs`: one `gensym` per name, the counter incremented before each use. -/
+def stampNames : List Name → Nat → List (Name × Name)
+  | [], _ => []
+  | n :: ns, c => (n, mangledName n (c + 1)) :: stampNames ns (c + 1)
 
-/-- The alpha-substitution `_alpha_mangle` computes: (old, new) pairs, counter threaded. -/
-def alphaSubs (names : List Name) (counter : Nat) : List (Name × Name) × Nat :=
-  names.foldl (fun (acc : List (Name × Name) × Nat) old =>
-    (acc.1 ++ [(old, mangledName old (acc.2 + 1))], acc.2 + 1)) ([], counter)
+def lookupName : List (Name × Name) → Name → Name
+  | [], n => n
+  | (k, v) :: r, n => if k = n then v else lookupName r n
+
+/-- `substitute(child, alpha_subs)` on reflected syntax. -/
+def renameAll (m : List (Name × Name)) (t : Term) : Term :=
+  m.foldl (fun acc kv => rename kv.1 kv.2 acc) t
+
+/-- `_alpha_convert` of each binder class followed by reconstruction. -/
+def mangleRoot (m : List (Name × Name)) : Term → Term
+  | Term.reduce op a vars =>
+    Term.reduce op (renameAll m a) (vars.map fun (nd : Name × Dom) => (lookupName m nd.1, nd.2))
+  | Term.lambda n size b => Term.lambda (lookupName m n) size (renameAll m b)
+  | Term.cat n pn sizes ps => Term.cat n (lookupName m pn) sizes (ps.map (renameAll m))
+  | Term.contraction r b vars ts =>
+    Term.contraction r b (vars.map fun (nd : Name × Dom) => (lookupName m nd.1, nd.2)) (ts.map (renameAll m))
+  | Term.subs a σ =>
+    Term.subs (renameAll m a) (σ.map fun (kv : Name × Term) => (lookupName m kv.1, kv.2))
+  | Term.independent fn rv bv dv size =>
+    Term.independent (renameAll m fn) rv (lookupName m bv) (lookupName m dv) size
+  | t => t
+
+/-- `_alpha_mangle`: the renamed node and the new counter. -/
+def alphaMangle (t : Term) (counter : Nat) : Term × Nat :=
+  (mangleRoot (stampNames (toMangle t) counter) t, counter + (toMangle t).length)
+
+/-- Binders strictly inside the root node. -/
+def innerBound : Term → List Name
+  | Term.reduce _ a _ => allBound a
+  | Term.subs a σ => allBound a ++ allBoundSubs σ
+  | Term.cat _ _ _ ps => allBoundList ps
+  | Term.lambda _ _ b => allBound b
+  | Term.independent fn _ _ _ _ => allBound fn
+  | Term.contraction _ _ _ ts => allBoundList ts
+  | t => allBound t
+
+/-- Interpreter state seen by `reflect`: the gensym counter and the cons cache
+    (key: the node as requested, with already-built children; value: the node returned). -/
+structure RState where
+  counter : Nat
+  cache : List (Term × Term)
+
+def lookupCache (same : Term → Term → Bool) : List (Term × Term) → Term → Option Term
+  | [], _ => none
+  | (k, v) :: r, t => if same k t then some v else lookupCache same r t
+
+/-- `reflect(cls, *args)` for a node whose children are already built.  `same` is the cons-cache key
+    comparison (structural equality of the arguments; any function works for the theorems). -/
+def reflectNode (same : Term → Term → Bool) (t : Term) (s : RState) : Term × RState :=
+  match lookupCache same s.cache t with
+  | some v => (v, s)
+  | none =>
+    let r := alphaMangle t s.counter
+    (r.1, ⟨r.2, (r.1, r.1) :: (t, r.1) :: s.cache⟩)
+
+mutual
+  /-- Build a user-level expression bottom-up under `reflect` (children first, left to right). -/
+  def reflectT (same : Term → Term → Bool) : Term → RState → Term × RState
+    | Term.var n d, s => (Term.var n d, s)
+    | Term.num v d, s => (Term.num v d, s)
+    | Term.tensor i d x, s => (Term.tensor i d x, s)
+    | Term.slice n a b c d, s => (Term.slice n a b c d, s)
+    | Term.unary op a, s =>
+      let r := reflectT same a s
+      reflectNode same (Term.unary op r.1) r.2
+    | Term.binary op l r, s =>
+      let r1 := reflectT same l s
+      let r2 := reflectT same r r1.2
+      reflectNode same (Term.binary op r1.1 r2.1) r2.2
+    | Term.reduce op a vars, s =>
+      let r := reflectT same a s
+      reflectNode same (Term.reduce op r.1 vars) r.2
+    | Term.subs a σ, s =>
+      let r1 := reflectT same a s
+      let r2 := reflectSubs same σ r1.2
+      reflectNode same (Term.subs r1.1 r2.1) r2.2
+    | Term.stack n ps, s =>
+      let r := reflectList same ps s
+      reflectNode same (Term.stack n r.1) r.2
+    | Term.cat n pn sizes ps, s =>
+      let r := reflectList same ps s
+      reflectNode same (Term.cat n pn sizes r.1) r.2
+    | Term.lambda n size b, s =>
+      let r := reflectT same b s
+      reflectNode same (Term.lambda n size r.1) r.2
+    | Term.independent fn rv bv dv size, s =>
+      let r := reflectT same fn s
+      reflectNode same (Term.independent r.1 rv bv dv size) r.2
+    | Term.align a names, s =>
+      let r := reflectT same a s
+      reflectNode same (Term.align r.1 names) r.2
+    | Term.contraction ro bo vars ts, s =>
+      let r := reflectList same ts s
+      reflectNode same (Term.contraction ro bo vars r.1) r.2
+    | Term.finitary op args, s =>
+      let r := reflectList same args s
+      reflectNode same (Term.finitary op r.1) r.2
+    | Term.delta ts, s =>
+      let r := reflectDelta same ts s
+      reflectNode same (Term.delta r.1) r.2
+  def reflectList (same : Term → Term → Bool) : List Term → RState → List Term × RState
+    | [], s => ([], s)
+    | t :: ts, s =>
+      let r1 := reflectT same t s
+      let r2 := reflectList same ts r1.2
+      (r1.1 :: r2.1, r2.2)
+  def reflectSubs (same : Term → Term → Bool) : List (Name × Term) → RState → List (Name × Term) × RState
+    | [], s => ([], s)
+    | (k, t) :: ts, s =>
+      let r1 := reflectT same t s
+      let r2 := reflectSubs same ts r1.2
+      ((k, r1.1) :: r2.1, r2.2)
+  def reflectDelta (same : Term → Term → Bool) :
+      List (Name × Term × Term) → RState → List (Name × Term × Term) × RState
+    | [], s => ([], s)
+    | (n, p, d) :: ts, s =>
+      let r1 := reflectT same p s
+      let r2 := reflectT same d r1.2
+      let r3 := reflectDelta same ts r2.2
+      ((n, r1.1, r2.1) :: r3.1, r3.2)
+end
+
+/-! ### Structural cons-cache key (driver and witness): the wire form of a term -/
+
+def domSexp (d : Dom) : Sexp :=
+  match d.dtype with
+  | DType.real => Sexp.list (Sexp.atom "real" :: d.shape.map Sexp.ofNat)
+  | DType.bint n => Sexp.list (Sexp.atom "bint" :: Sexp.ofNat n :: d.shape.map Sexp.ofNat)
+
+def dtypeSexp : DType → Sexp
+  | DType.real => Sexp.atom "real"
+  | DType.bint n => Sexp.ofNat n
+
+def varsSexp (vars : List (Name × Dom)) : Sexp :=
+  Sexp.list (vars.map fun (nd : Name × Dom) => Sexp.list [Sexp.str nd.1, domSexp nd.2])
+
+def opSexp (op : Op) : Sexp :=
+  match op.params with
+  | Sexp.list ps => Sexp.list (Sexp.atom op.name :: ps)
+  | p => Sexp.list [Sexp.atom op.name, p]
+
+mutual
+  def termSexp : Term → Sexp
+    | Term.var n d => Sexp.list [Sexp.atom "var", Sexp.str n, domSexp d]
+    | Term.num v d => Sexp.list [Sexp.atom "num", XR.toSexp v, dtypeSexp d]
+    | Term.tensor ins d data =>
+      Sexp.list [Sexp.atom "tensor",
+        Sexp.list (ins.map fun (ns : Name × Nat) => Sexp.list [Sexp.str ns.1, Sexp.ofNat ns.2]),
+        domSexp d, Sexp.list (data.toList.map XR.toSexp)]
+    | Term.unary op a => Sexp.list [Sexp.atom "unary", opSexp op, termSexp a]
+    | Term.binary op l r => Sexp.list [Sexp.atom "binary", opSexp op, termSexp l, termSexp r]
+    | Term.reduce op a vars => Sexp.list [Sexp.atom "reduce", Sexp.atom op, termSexp a, varsSexp vars]
+    | Term.subs a σ => Sexp.list [Sexp.atom "subs", termSexp a, Sexp.list (subsSexp σ)]
+    | Term.slice n a b c d =>
+      Sexp.list [Sexp.atom "slice", Sexp.str n, Sexp.ofNat a, Sexp.ofNat b, Sexp.ofNat c, Sexp.ofNat d]
+    | Term.stack n ps => Sexp.list (Sexp.atom "stack" :: Sexp.str n :: listSexp ps)
+    | Term.cat n pn sizes ps =>
+      Sexp.list (Sexp.atom "cat" :: Sexp.str n :: Sexp.str pn :: Sexp.ofNats sizes :: listSexp ps)
+    | Term.lambda n size b => Sexp.list [Sexp.atom "lambda", Sexp.str n, Sexp.ofNat size, termSexp b]
+    | Term.independent fn rv bv dv size =>
+      Sexp.list [Sexp.atom "independent", termSexp fn, Sexp.str rv, Sexp.str bv, Sexp.str dv, Sexp.ofNat size]
+    | Term.align a names => Sexp.list [Sexp.atom "align", termSexp a, Sexp.list (names.map Sexp.str)]
+    | Term.contraction r b vars ts =>
+      Sexp.list (Sexp.atom "contraction" :: Sexp.atom r :: Sexp.atom b :: varsSexp vars :: listSexp ts)
+    | Term.finitary op args => Sexp.list (Sexp.atom "finitary" :: opSexp op :: listSexp args)
+    | Term.delta ts => Sexp.list (Sexp.atom "delta" :: deltaSexp ts)
+  def listSexp : List Term → List Sexp
+    | [] => []
+    | t :: ts => termSexp t :: listSexp ts
+  def subsSexp : List (Name × Term) → List Sexp
+    | [] => []
+    | (k, t) :: ts => Sexp.list [Sexp.str k, termSexp t] :: subsSexp ts
+  def deltaSexp : List (Name × Term × Term) → List Sexp
+    | [] => []
+    | (n, p, d) :: ts => Sexp.list [Sexp.str n, termSexp p, termSexp d] :: deltaSexp ts
+end
+
+mutual
+  /-- Structural equality of S-expressions (by structural recursion, so that it also evaluates in the kernel). -/
+  def sexpEq : Sexp → Sexp → Bool
+    | Sexp.atom a, Sexp.atom b => a == b
+    | Sexp.str a, Sexp.str b => a == b
+    | Sexp.list xs, Sexp.list ys => sexpListEq xs ys
+    | _, _ => false
+  def sexpListEq : List Sexp → List Sexp → Bool
+    | [], [] => true
+    | x :: xs, y :: ys => sexpEq x y && sexpListEq xs ys
+    | _, _ => false
+end
+
+/-- Structural equality of two terms (via the wire form). -/
+def sameTerm (a b : Term) : Bool := sexpEq (termSexp a) (termSexp b)
+
+/-- `reflect` starting from an empty cache and counter 0. -/
+def reflect0 (t : Term) : Term × RState := reflectT sameTerm t ⟨0, []⟩
+
+/-! ### The rule `optimizer.unfold` / `normalize` applies to sibling reductions
+
+`Binary(op, Reduce(red, a, vs), b)  ↦  Reduce(red, Binary(op, a, b), vs)` — pulling the reduction over
+the sibling (funsor/cnf.py normalize_contraction_*, optimizer.py unfold).  Sound only when `vs` is
+fresh for `b`; the implementation does not check it. -/
+def pullReduce : Term → Term
+  | Term.binary op (Term.reduce red a vs) b => Term.reduce red (Term.binary op a b) vs
+  | t => t
 
 end FV.C05
